@@ -247,6 +247,7 @@ def explore(ctx, name, driver, progs, mode='dfs', pb=2, max_exec=20000, runs=0, 
         cmd += ' --shard %s' % shard
     if max_steps:
         cmd += ' --max-steps %d' % max_steps
+    cmd += ' --time-budget %d' % int(tmo * 0.85)
     cmd += ' ' + extra
     t0 = time.time()
     rc, o = sh(cmd, tmo=tmo + 30)
